@@ -78,7 +78,27 @@ chk("C07", "exploration",
     "Concurrent runs against a real store built with the Go race detector: maintenance loop every 2-5 ms, few-KiB fractions (dozens of rotations and background seals per run), small cache with constant eviction, 2-8 writers with disjoint documents and 2-8 readers doing search -> immediate fetch (with and without hints), seeded delays at hooks between the index-update steps, the seal/rotate hand-over and the cache critical sections, GOMAXPROCS 2/4/16. Readers assert online that every returned ID was submitted, satisfies query and range, is strictly ordered and fetches to exactly its bytes; any error, panic (dead worker) or race report is a violation. After the writers finish, a battery of searches/histograms/fetches must equal the model while seals may still run, and again after stop and reopen.",
     "Schedules are sampled; the evidence counts rotations and seals that overlapped reader calls and hook hits per point. A stall is inconclusive (watchdog + goroutine dump).", "Go race detector + online reader assertions + quiescent differential vs model under seeded hook delays", "DESIGN.md 2/C07")
 
+# additions made while validating the checks against seeded changes and mutants (DESIGN.md section 7)
+ADD = {
+ "C01": "A third of the rounds submit 2-6 bulks at once. Every 8th batch runs the ingest under strace and judges the order of pwrite64/fsync/acknowledgement on the syscalls themselves (counting invariants, sound under concurrent bulks), independent of the hooks.",
+ "C02": "Half of the interleaved forms search between the bulks (judged against the prefix ingested so far); a many-fractions form (3-6 fractions, 1-2 fractions per iteration) covers the limit cut across iterations.",
+ "C03": "Half of the batches seal two fractions one after the other in one process; a third move the corpus to 11 min .. 22 h before the present so that sealing builds the minute-level occupancy map.",
+ "C07": "Every batch ends with a fresh-fraction burst case: 60/200 rounds on new active fractions with 2-6 first bulks at once and readers asking NOT-queries until the index workers are idle, with delays between the per-token queueing steps and a long delay before new tokens are registered.",
+ "C08": "Every fourth batch has a token dictionary of several blocks. The clean seal also runs under strace: a temporary file is renamed into place only after all its writes are covered by a completed fsync, and .meta/.docs are unlinked only after a directory fsync that follows the index rename.",
+ "C10": "Part C: 3-8 clients x 12 requests in flight at once through one ingestor to a storage client whose calls last 300 us and re-read their payload before returning (no payload changes in flight; every request's call carries exactly its own documents).",
+ "C12": "Text atoms include words with numeric runes outside the decimal digits; one multi-type field lists its default type last.",
+ "C13": "Part (e): a live store per batch (one document per dictionary token, multi-block dictionaries in every other batch) answers every pattern/range on the active and on the sealed fraction (block-loading token provider).",
+ "C14": "Every third batch has a fraction of 4.5-13 k documents (several ID blocks); a third of the fractions receive a partial re-delivery with documents outside their time borders before sealing.",
+ "C15": "A deletion marker present before a start must be gone after it. Every third history has slow seals (seeded sleeps at the sealer's hooks, or the k-th seal parked for the rest of the process lifetime with the process killed at the end), so that retention shifts out fractions still being sealed.",
+ "C17": "Forms: active, replayed (stop and reopen while active), sealed, restarted; a quarter of the batches use large concurrent bulks.",
+ "C18": "Every third concurrent run is wide (hundreds of small entries, tiny limit, slow loaders); scripted shrink-while-loading histories park 1-6 loads in flight across a cleaning pass that drops >= 90 % of a 190-600 entry map and then compare accounted size with the live entries.",
+ "C19": "Late-fraction scenarios: the worker is parked after its k-th durable write, the store seals, ingests, seals and ingests again, is killed and restarted; the resumed result must equal the synchronous search taken before the start and contain no document of the later fraction. The first request of every corpus also runs under strace (files renamed into place only after their writes are fsynced).",
+ "C20": "A quarter of the documents carry two members whose names differ only by letter case; third surface: the proxy's public Fetch handler with a fields filter; half of the pipe queries carry a '|' byte inside a quoted value of the filter part.",
+}
+
 def main():
+    for pid, extra in ADD.items():
+        CHECKS[pid]["level_claimed"]["text"] += " " + extra
     claimed = sorted(CHECKS)
     na = [{"property_id": p, "reason": "check not built yet in this session (planned; see DESIGN.md section 2)"} for p in ALL if p not in CHECKS]
     commits = []
